@@ -2,6 +2,8 @@
 package props
 
 import (
+	"reflect"
+	"unsafe"
 	"encoding/json"
 	"fmt"
 
@@ -92,3 +94,6 @@ func ceilDiv(a, b int) int {
 	}
 	return (a + b - 1) / b
 }
+
+// ptrOf returns the pointer held in an interface value (a pooled *signal.Buffer[T]).
+func ptrOf(x any) unsafe.Pointer { return unsafe.Pointer(reflect.ValueOf(x).Pointer()) }
